@@ -156,6 +156,24 @@ func TestC18Random(t *testing.T) {
 	})
 }
 
+// TestC18Lifetime: half A machinery, a generated sequence of Subscribe /
+// cancel / Close / Poll calls on one client object (life.go).
+func TestC18Lifetime(t *testing.T) {
+	if !vstat.Enabled(propertyID) {
+		t.Skip()
+	}
+	rec := vstat.New(propertyID, "lifetime")
+	rec.RunRapid(t, func(rt *rapid.T) {
+		sc := genLife(rt)
+		rec.Current(sc)
+		st, err := runLifeBubble(t, sc)
+		rec.Case(sc, st.nontrivial(), st.labelList()...)
+		if err != nil {
+			rt.Fatalf("%s", rec.Fail(sc, classOf(err), "%v", err))
+		}
+	})
+}
+
 // TestC18Transport: half B, the real gNMI Impl against an in-process server.
 func TestC18Transport(t *testing.T) {
 	if !vstat.Enabled(propertyID) {
@@ -238,6 +256,15 @@ func replayOne(t *testing.T, rf *vstat.ReplayFile) string {
 			return ""
 		}
 		return "inconclusive: completion not observed in three runs"
+	case "lifetime":
+		var sc LScenario
+		if err := json.Unmarshal(rf.Scenario, &sc); err != nil {
+			return "bad scenario: " + err.Error()
+		}
+		if _, err := runLifeBubble(t, &sc); err != nil {
+			return err.Error()
+		}
+		return ""
 	default: // "random" and hand-written files
 		var sc Scenario
 		if err := json.Unmarshal(rf.Scenario, &sc); err != nil {
